@@ -34,7 +34,7 @@ Plan reuse_generate(uint64_t base, const std::string &prop, uint64_t index, int 
         p.par["writer"] = 1;
         p.par["cap1"] = (int64_t)ro.below(ro.chance(1, 2) ? 12 : 300);
         p.par["cap2"] = (int64_t)ro.below(ro.chance(1, 3) ? 12 : 300);
-        p.par["wrk"] = (int64_t)ro.below(2);
+        p.par["wrk"] = (int64_t)ro.below(3);       // 0 init, 1 reset, 2 init with a NULL destination (rejected) followed by reset
         gen_writer_ops(ro, p.ops, (int)ro.below(25));
         gen_writer_ops(r2, p.ops2, 1 + (int)r2.below(20));
         p.prefill = rd.next() | 1;
@@ -120,8 +120,15 @@ static Result reuse_writer(const Plan &p, const ExecCtx &c) {
         for (auto &o : p.ops) { Outcome x = a.call(o); if (x.ret) okcalls++; }
         t1.add("ABANDON");
         m1 = t1.log.size();
+        if (wrk == 2) a.call(mk(W_INIT, -(int64_t)(cap2 + 1)));
         Outcome rs = wrk == 0 ? a.call(mk(W_INIT, (int64_t)cap2)) : a.call(mk(W_RESET));
         if (wrk == 1 && !rs.ret) compare = false;      // a reset that returned false promises nothing
+        if (wrk == 2) {
+            // init rejected the NULL destination: the object must be as unusable as a fresh one treated the same way
+            if (rs.ret) sink.fail("C12.writer.reset_after_null_init", "reset returned true on a writer whose last init was given a NULL destination (a fresh writer refuses)");
+            compare = false;
+            for (auto &o : p.ops2) { Outcome x = a.call(o); if (x.ret && o.code != W_COUNTER) { sink.fail("C12.writer.writes_after_null_init", "a write succeeded on a writer whose last init was given a NULL destination"); break; } }
+        }
         if (compare) {
             if (a.counter() != 0 || a.err() != 0) sink.fail("C12.writer.not_clean", fmt("after %s: counter=%zu error=%s", wrk == 0 ? "init" : "reset", a.counter(), err_name(a.err())));
             m1 = t1.log.size();
